@@ -155,9 +155,21 @@ class Acc:
             return True
         nm = topo.name if topo is not None else ""
         if v.status != "sat":
+            # solver gave up: look for a concrete witness (never used to claim that the goal holds)
+            w = self._numeric_witness(topo, goal, dom, pc, extra, on_sat)
+            if w is not None:
+                d["violations"].append(w)
+                d["extra"]["witness_after_unknown"] = d["extra"].get("witness_after_unknown", 0) + 1
+                return False
             d["inconclusive"].append(f"{nm} {encname} {label}: solver {v.status}")
             return False
-        viol = on_sat(v.model) if on_sat else None
+        def _try(model):
+            try:
+                return on_sat(model)
+            except (ArithmeticError, ValueError):  # e.g. a model value that underflows to 0.0 in floats
+                return None
+
+        viol = _try(v.model) if on_sat else None
         if viol is None and on_sat is not None:
             # the abstract model may be inconsistent with the real exp/log/pow: fix the parameters, fold, solve again
             envs = retry_envs
@@ -174,13 +186,33 @@ class Acc:
                 envs = [{k: x for k, x in e.items() if k in fv} for e in envs]
                 m2 = prover.retry_concrete(goal, dom, pc, extra, envs)
                 if m2 is not None:
-                    viol = on_sat(m2)
+                    viol = _try(m2)
                     d["extra"]["concretised_retries"] = d["extra"].get("concretised_retries", 0) + 1
         if viol is None:
             d["inconclusive"].append(f"{nm} {encname} {label}: sat model does not reproduce on the real float code")
         else:
             d["violations"].append(viol)
         return False
+
+    def _numeric_witness(self, topo, goal, dom, pc, extra, on_sat, tries=24):
+        if topo is None or on_sat is None:
+            return None
+        rr = random.Random(12345)
+        for _ in range(tries):
+            env = numrun.sample_env(topo, rr)
+            for name in discharge.free_vars(goal):
+                env.setdefault(name, rr.uniform(0.5, 2.0))
+            try:
+                if not all(bool(zeval.evalf(c, env)) for c in list(dom) + list(pc) + list(extra)):
+                    continue
+                if bool(zeval.evalf(goal, env)):
+                    continue
+                w = on_sat(env)
+            except Exception:  # noqa
+                continue
+            if w is not None:
+                return w
+        return None
 
     def exec_violation(self, pid, topo, encname, style, msg, flags=None, extra=None):
         rec = {"property": pid, "kind": "exec", "topo": topo.to_json(), "style": style, "encoding": encname, "msg": msg,
